@@ -87,9 +87,9 @@ var coreRots = map[string][]int{
 	"compose2": allRots100, "compose3": {0, 5}, "compose4": {},
 	"fmaperr": allRots100, "joinerr": allRots100, "traverse": allRots100,
 	"toerror": {0, 3, 6, 100},
-	"plumb":   {0, 4, 100},
+	"plumb":   {0, 100, 200},
 	"fmap":    allRots100, "fmapstr": {0, 4}, "join": {0, 4, 7},
-	"mem": {0, 1, 2, 3, 4, 5, 6, 7, 8, 9, 10},
+	"mem": {0, 1, 2, 3, 4, 5, 6, 7, 8, 9, 10, 11, 12, 13},
 }
 
 func rotsOf(key string, extra ...int) string { return rotSet(append(append([]int{}, coreRots[key]...), extra...)...) }
@@ -136,7 +136,7 @@ func checkC16(c *core.Ctx) error {
 func checkC15(c *core.Ctx) error {
 	runs := []famRun{{"plumb", tierConsts(c,
 		map[string]string{"MaxParams": "4", "Rots": rotsOf("plumb", int(c.Seed%10))},
-		map[string]string{"MaxParams": "5", "Rots": rotsOf("plumb", 2, 6, 8, 101, int(c.Seed%10))})}}
+		map[string]string{"MaxParams": "5", "Rots": rotsOf("plumb", 2, 4, 6, 8, 101, 201, 202, int(c.Seed%10))})}}
 	er, err := runEngine(c, runs)
 	if err != nil {
 		return err
@@ -153,7 +153,7 @@ func checkC17(c *core.Ctx) error {
 	runs := []famRun{
 		{"fmap", tierConsts(c, map[string]string{"Rots": all, "MaxLen": "3"}, map[string]string{"Rots": all, "MaxLen": "4"})},
 		{"fmapstr", tierConsts(c, map[string]string{"Rots": rotsOf("fmapstr", sr), "MaxLen": "3"}, map[string]string{"Rots": rotsOf("fmapstr", 7, sr), "MaxLen": "4"})},
-		{"join", tierConsts(c, map[string]string{"Rots": rotsOf("join", sr), "MaxOuter": "2"}, map[string]string{"Rots": all, "MaxOuter": "3"})},
+		{"join", tierConsts(c, map[string]string{"Rots": rotsOf("join", sr), "MaxOuter": "2", "MaxOuterLen": "4", "LenRots": "{0, 6}"}, map[string]string{"Rots": all, "MaxOuter": "3", "MaxOuterLen": "4", "LenRots": rotSet(0, 6, 4, sr)})},
 		{"joinstr", tierConsts(c, map[string]string{"MaxOuter": "2"}, map[string]string{"MaxOuter": "3"})},
 	}
 	er, err := runEngine(c, runs)
